@@ -628,8 +628,18 @@ func (g *GoFakeS3) createObjectBrowserUpload(bucket string, w http.ResponseWrite
 		return ResourceError(ErrKeyTooLong, key)
 	}
 
-	// FIXME: how does Content-MD5 get sent when using the browser? does it?
-	rdr, err := newHashingReader(infile, "")
+	// A POST upload carries the digest of the file in the form field
+	// Content-MD5 (the header of that name would cover the whole form):
+	var md5Base64 string
+	if g.integrityCheck {
+		if values, ok := r.MultipartForm.Value["Content-MD5"]; ok {
+			if len(values) != 1 || values[0] == "" {
+				return ErrInvalidDigest
+			}
+			md5Base64 = values[0]
+		}
+	}
+	rdr, err := newHashingReader(infile, md5Base64)
 	if err != nil {
 		return err
 	}
